@@ -13,7 +13,7 @@ def run_pipe(res, tier, prefix, configs, schedules):
     total = configs * schedules
     chunk = schedules * max(1, configs // (common.NCPU * 6))
     sh = common.Sharded(exe, lambda a, b: ['pipe', common.seed(), a, b, schedules], total, env=env, chunk=chunk, tag='pipe',
-                        timeout=3600, case_timeout=180).run()
+                        timeout=1500, case_timeout=180).run()
     # monitor violations: only this property's clauses; crashes / hangs in a valid session concern every pipeline property
     keep = [(k, t, c) for (k, t, c) in sh.viols if k.startswith(prefix + ':')]
     other = sorted(set(k for (k, t, c) in sh.viols if not k.startswith(prefix + ':')))
